@@ -376,6 +376,78 @@ func c23Aligned(p *an.Prog, r *an.R, rule string) {
 					}
 				}
 			}
+			if in == nil && len(loops) == 0 {
+				// the append sits in a helper (`d.addListEntry(md, ..)`): it must be an unconditional top-level statement
+				// there, and every call of the helper a top-level statement of a `range repoMetaData` loop with nothing
+				// ahead of it that leaves the iteration, the element passed along
+				topLevel := false
+				for _, st := range d.Decl.Body.List {
+					if st == ast.Stmt(as) {
+						topLevel = true
+					}
+				}
+				okCalls, nCalls := topLevel, 0
+				p.AllDecls(func(cf *types.Func, cd *an.DeclInfo) {
+					if cd.Pkg != d.Pkg || cd.Decl.Body == nil || cf == fn {
+						return
+					}
+					ci := cd.Pkg.TypesInfo
+					ast.Inspect(cd.Decl.Body, func(m ast.Node) bool {
+						rs, ok := m.(*ast.RangeStmt)
+						if !ok {
+							return true
+						}
+						for si, st := range rs.Body.List {
+							calls := an.CallsTo(ci, st, false, fn)
+							if len(calls) == 0 {
+								continue
+							}
+							nCalls++
+							_, isExpr := st.(*ast.ExprStmt)
+							_, isAssign := st.(*ast.AssignStmt)
+							passesElem := false
+							var valObj, keyObj types.Object
+							if id, ok := rs.Value.(*ast.Ident); ok {
+								valObj = ci.ObjectOf(id)
+							}
+							if id, ok := rs.Key.(*ast.Ident); ok {
+								keyObj = ci.ObjectOf(id)
+							}
+							for _, a := range calls[0].Args {
+								if (valObj != nil && an.UsesObj(ci, a, valObj)) || (keyObj != nil && an.UsesObj(ci, a, keyObj)) {
+									passesElem = true
+								}
+							}
+							if !isField(ci, rs.X, rmd) || !(isExpr || isAssign) || !passesElem {
+								okCalls = false
+							}
+							for _, before := range rs.Body.List[:si] {
+								if stmtLeavesIteration(before) {
+									okCalls = false
+								}
+							}
+						}
+						return true
+					})
+					// calls outside any range loop
+					total := len(an.CallsTo(ci, cd.Decl.Body, false, fn))
+					inLoops := 0
+					ast.Inspect(cd.Decl.Body, func(m ast.Node) bool {
+						if rs, ok := m.(*ast.RangeStmt); ok {
+							inLoops += len(an.CallsTo(ci, rs.Body, false, fn))
+							return false
+						}
+						return true
+					})
+					if total != inLoops {
+						okCalls = false
+					}
+				})
+				if okCalls && nCalls > 0 {
+					r.OK(rule, key, as.Pos(), "one entry per element of repoMetaData: the append is the helper's unconditional statement and the helper is called once per iteration of the loop over repoMetaData")
+					continue
+				}
+			}
 			if in == nil {
 				r.Bad(rule, key, as.Pos(), "indexData.repoListEntry is written outside a `range repoMetaData` loop, or conditionally inside one: entry i may no longer describe repository i, while Search/List take the tombstone flag and the tenant of repoMetaData[i] to decide about repoListEntry[i] - another repository's entry is handed out")
 				continue
